@@ -1,16 +1,71 @@
 From Coq Require Import List NArith String Bool.
 Import ListNotations.
-From TV Require Import Lib.Obs C48.Model C48.Spec C48.Proofs2.
+From TV Require Import Lib.Obs C48.Model C48.Spec.
 
-(* input: (method, scheme, userinfo, host, port, path, params, consumer secret, token secret) *)
-Definition input := (list N * list N * option (list N) * list N * option (list N) * list N
-                     * list (list N * list N) * list N * list N)%type.
+(* one signature: (method, scheme, userinfo, host, port, path, params, consumer secret, token secret or no token) *)
+Definition sign_in := (list N * list N * option (list N) * list N * option (list N) * list N
+                       * list (list N * list N) * list N * option (list N))%type.
+(* (method, scheme, userinfo, host, port, path) *)
+Definition url_in := (list N * list N * option (list N) * list N * option (list N) * list N)%type.
+(* (consumer key, consumer secret, access token key, access token secret) *)
+Definition cred_in := (list N * list N * list N * list N)%type.
+
+Inductive input :=
+| ISign (v10a : bool) (i : sign_in)                       (* _oauth_signature / _oauth10a_signature *)
+| IReq (v10a : bool) (u : url_in) (user : list (list N * list N)) (c : cred_in)
+       (time : N) (nonce : list N)                         (* OAuthMixin._oauth_request_parameters *)
+| IEsc (s : list N).                                       (* _oauth_escape *)
+
+Definition SIG_TAG : string := "HmacSha1Base64".
+Definition pair_obs (kv : text * text) : obs :=
+  if text_eqb (fst kv) K_SIGNATURE then OList [OBytes (fst kv); OTag SIG_TAG]
+  else OList [OBytes (fst kv); OBytes (snd kv)].
 
 Definition run_case (i : input) : obs :=
-  let '(m, sc, ui, host, port, path, ps, cs, ts) := i in
-  OList [OBytes (signing_key cs ts); OBytes (base_string m sc (authority ui host port) path ps)].
+  match i with
+  | ISign v (m, sc, ui, host, port, path, ps, cs, tok) =>
+      OList [OBytes (key_of v cs tok); OBytes (base_string m sc (authority ui host port) path ps)]
+  | IReq v (m, sc, ui, host, port, path) user (ck, cs, tk, tsec) t n =>
+      OList [OBytes (request_key v cs tsec);
+             OBytes (request_base m sc (authority ui host port) path ck tk t n user);
+             OList (map pair_obs (request_parameters [] ck tk t n))]
+  | IEsc s => OBytes (esc s)
+  end.
 
-(* the property: the (key, text) handed to HMAC-SHA1 are the ones RFC 5849 defines *)
+(* the property: the (key, text) handed to HMAC-SHA1 are the ones RFC 5849 defines; for a request
+   the signed parameter set is the request's parameters plus the returned protocol parameters, whose
+   timestamp and nonce are the numerals of the clock and the UUID; the encoding decodes back *)
+Definition spec_tok (tok : option text) : text := match tok with Some t => t | None => [] end.
+
+Definition encoded_length (s : text) : nat :=
+  fold_right (fun b acc => ((if mem b rfc_unreserved then 1 else 3) + acc)%nat) 0%nat s.
+
+Definition check_req (u : url_in) (user : list (text * text)) (c : cred_in) (t : N) (n : text) (o : obs) : bool :=
+  let '(m, sc, ui, host, port, path) := u in
+  let '(ck, cs, tk, tsec) := c in
+  match o with
+  | OList [OBytes k; OBytes b;
+           OList [OList [OBytes n1; OBytes v1]; OList [OBytes n2; OBytes v2]; OList [OBytes n3; OBytes v3];
+                  OList [OBytes n4; OBytes v4]; OList [OBytes n5; OBytes v5]; OList [OBytes n6; OBytes v6];
+                  OList [OBytes n7; OTag tg]]] =>
+      text_eqb k (spec_key cs tsec)
+      && list_eqb text_eqb [n1; n2; n3; n4; n5; n6; n7] protocol_names
+      && text_eqb v1 ck && text_eqb v2 tk && text_eqb v3 (txt "HMAC-SHA1")
+      && is_decimal_of t v4 && is_hex_of n v5 && text_eqb v6 (txt "1.0") && String.eqb tg SIG_TAG
+      && text_eqb b (spec_base m sc host port path
+                               (spec_signed [(n1, v1); (n2, v2); (n3, v3); (n4, v4); (n5, v5); (n6, v6)] user))
+  | _ => false
+  end.
+
 Definition check_case (i : input) (o : obs) : bool :=
-  let '(m, sc, ui, host, port, path, ps, cs, ts) := i in
-  obs_eqb o (OList [OBytes (spec_key cs ts); OBytes (spec_base m sc host port path ps)]).
+  match i with
+  | ISign v (m, sc, ui, host, port, path, ps, cs, tok) =>
+      obs_eqb o (OList [OBytes (spec_key cs (spec_tok tok)); OBytes (spec_base m sc host port path ps)])
+  | IReq v u user c t n => check_req u user c t n o
+  | IEsc s =>
+      match o with
+      | OBytes r => match unesc r with Some s' => text_eqb s' s | None => false end
+                    && Nat.eqb (List.length r) (encoded_length s)
+      | _ => false
+      end
+  end.
